@@ -261,7 +261,11 @@ pub fn engine_of(prop: &str) -> Option<Box<dyn Engine>> {
         "C01" => Box::new(hist("C01", Some(Kind::Pq), 400_000, 8000000)),
         "C02" => Box::new(hist("C02", Some(Kind::Dpq), 400_000, 8000000)),
         "C03" => Box::new(hist("C03", None, 400_000, 8000000)),
-        "C04" => Box::new(HistEngine { huge_hints: true, ..hist("C04", None, 400_000, 8000000) }),
+        "C04" => Box::new(Multi {
+            prop: "C04",
+            level: "exploration",
+            parts: vec![(9, Box::new(HistEngine { huge_hints: true, ..hist("C04", None, 400_000, 8000000) })), (1, Box::new(crate::stdctor::StdCtorEngine { prop: "C04", focus: C04, quick_runs: 44_000, thorough_runs: 880_000 }))],
+        }),
         "C06" => Box::new(hist("C06", None, 300_000, 5333333)),
         "C08" => Box::new(Multi {
             prop: "C08",
@@ -299,7 +303,7 @@ pub fn engine_of(prop: &str) -> Option<Box<dyn Engine>> {
         "C17" => Box::new(Multi {
             prop: "C17",
             level: "fault_enumeration",
-            parts: vec![(1, Box::new(HistEngine { alloc_faults: true, ..hist("C17", None, 60_000, 2000000) })), (1, Box::new(crate::twin::CapEngine { quick_runs: 60_000, thorough_runs: 1_500_000 }))],
+            parts: vec![(1, Box::new(HistEngine { alloc_faults: true, ..hist("C17", None, 60_000, 2000000) })), (1, Box::new(crate::twin::CapEngine { quick_runs: 60_000, thorough_runs: 1_500_000 })), (1, Box::new(crate::stdctor::StdCtorEngine { prop: "C17", focus: C17, quick_runs: 60_000, thorough_runs: 1_500_000 }))],
         }),
         "C18" => Box::new(crate::twin::HashEngine { quick_runs: 120_000, thorough_runs: 2_000_000 }),
         "C05" => Box::new(crate::complexity::CxEngine { quick_runs: 1_200, thorough_runs: 2_500 }),
